@@ -68,7 +68,7 @@ static void settle2(volatile int *a, volatile int *b) {
 		if (ca == la && cb == lb) stable++; else { stable = 0; la = ca; lb = cb; }
 	}
 }
-static void wait_for(_Atomic int *v, int want) { for (int k = 0; k < 7000 && atomic_load(v) < want; k++) usleep(100); }   // 0.7 s
+static void wait_for(_Atomic int *v, int want) { for (int k = 0; k < 25000 && atomic_load(v) < want; k++) usleep(100); }   // 2.5 s
 
 static void run_group_script(const char *ops) {
 	dispatch_group_t g = dispatch_group_create(); quarantined = g; atomic_store(&freed_flag, 0);
@@ -117,21 +117,21 @@ static void run_lane_script(const char *ops) {
 	dispatch_source_t src = NULL; dispatch_object_t shown; shown._dq = q;
 	atomic_store(&fin_runs, 0); atomic_store(&fin_ctx_id, 0); atomic_store(&fin_queue_id, -1); atomic_store(&items_run, 0);
 	atomic_store(&specific_dtor_runs, 0);
-	long x = 1; int hasfin = 0; static char skey;
+	long x = 1, susp = 0; int hasfin = 0; static char skey;
 	printf("L");
 	for (const char *p = ops; *p; p++) {
 		switch (*p) {
 		case 'r': dispatch_retain(q); x++; break;
 		case 'R': dispatch_release(q); x--; break;
-		case 's': dispatch_suspend(q); break;
-		case 'u': dispatch_resume(q); break;
+		case 's': dispatch_suspend(q); susp++; break;
+		case 'u': dispatch_resume(q); susp--; break;
 		case 'k': kids[nk++] = dispatch_queue_create_with_target("c17.kid", NULL, q); break;
 		case 'K': dispatch_release(kids[--nk]); break;
 		case 'p': dispatch_async_f(q, NULL, item_fn); break;
 		case 'P': dispatch_async_f(kids[nk - 1], NULL, item_fn); break;
 		case 'Q': { int before = atomic_load(&items_run); dispatch_suspend(q); dispatch_async_f(q, q, suspend_self_fn); dispatch_async_f(q, NULL, item_fn);
-			dispatch_resume(q); wait_for(&items_run, before + 1); } break;   // the drain is interrupted with an item left: _dispatch_queue_invoke_finish
-		case 'S': { int before = atomic_load(&items_run); dispatch_async_f(q, q, suspend_self_fn); wait_for(&items_run, before + 1); } break;  // the drain is interrupted by a suspension: _dispatch_queue_invoke_finish
+			dispatch_resume(q); wait_for(&items_run, before + 1); susp++; } break;   // the drain is interrupted with an item left: _dispatch_queue_invoke_finish
+		case 'S': { int before = atomic_load(&items_run); dispatch_async_f(q, q, suspend_self_fn); wait_for(&items_run, before + 1); susp++; } break;  // the drain is interrupted by a suspension: _dispatch_queue_invoke_finish
 		case 'x': hasfin = 1; dispatch_set_context(q, ctxbuf + 3); dispatch_set_finalizer_f(q, finalizer); break;
 		case 'y': dispatch_queue_set_specific(q, &skey, (void *)1, specific_dtor); break;
 		case 'm': src = dispatch_source_create(DISPATCH_SOURCE_TYPE_TIMER, 0, 0, q); dispatch_source_set_event_handler_f(src, nop);
@@ -145,6 +145,9 @@ static void run_lane_script(const char *ops) {
 		case 'z': break;
 		}
 		int alive = x > 0 || nk > 0 || src != NULL;
+		// deterministic quiescence: a barrier through every queue that can run (items submitted so far have run and the drain
+		// lock is free again); what is left is the drainer's final release, a few instructions later: settle2
+		if (alive && susp == 0) { for (int k = 0; k < nk; k++) dispatch_sync_f(kids[k], NULL, nop); dispatch_sync_f(q, NULL, nop); }
 		settle2(alive ? &q->do_ref_cnt : NULL, (shown._dq != q) ? &shown._do->do_ref_cnt : NULL);
 		// two pairs: the queue q, and the object in focus (source / inactive queue) or q again
 		if (alive) printf(" %d %d", q->do_xref_cnt, q->do_ref_cnt); else printf(" -77 -77");
